@@ -13,20 +13,20 @@ theorem inert_expr (f : Nat) (e : Expr) (env : Nat) (repl : Bool) (σ : Store) (
     evalE P f e env repl σ = .ok (.nil, .none) σ ∨ evalE P f e env repl σ = .abn .fuel := by
   cases f with
   | zero => right; rw [evalE]
-  | succ f => left; cases e <;> (rw [evalE]; simp [h, nilOk])
+  | succ f => left; cases e <;> (rw [evalE]; simp [guardErr, ER.seq, Res.bind, h, nilOk])
 
 theorem inert_stmt (f : Nat) (s : Stmt) (env : Nat) (repl : Bool) (σ : Store) (h : σ.hadError = true) :
     evalS P f s env repl σ = .ok (.nil, .none) σ ∨ evalS P f s env repl σ = .abn .fuel := by
   cases f with
   | zero => right; rw [evalS]
-  | succ f => left; cases s <;> ((first | rw [evalS] | unfold evalS); simp [h, nilOk])
+  | succ f => left; cases s <;> ((first | rw [evalS] | unfold evalS); simp [guardErr, ER.seq, Res.bind, h, nilOk])
 
 /-- with one unit of fuel the inert evaluation finishes: bounded time after an error -/
 theorem inert_terminates (f : Nat) (e : Expr) (s : Stmt) (env : Nat) (repl : Bool) (σ : Store) (h : σ.hadError = true) :
     evalE P (f + 1) e env repl σ = .ok (.nil, .none) σ ∧ evalS P (f + 1) s env repl σ = .ok (.nil, .none) σ := by
   constructor
-  · cases e <;> (rw [evalE]; simp [h, nilOk])
-  · cases s <;> ((first | rw [evalS] | unfold evalS); simp [h, nilOk])
+  · cases e <;> (rw [evalE]; simp [guardErr, ER.seq, Res.bind, h, nilOk])
+  · cases s <;> ((first | rw [evalS] | unfold evalS); simp [guardErr, ER.seq, Res.bind, h, nilOk])
 
 /-- a loop whose condition is evaluated after the error ends at once -/
 theorem loops_stop_after_error (f : Nat) (c : Expr) (inc : Option Expr) (b : Stmt) (env : Nat) (repl : Bool) (σ : Store)
@@ -34,20 +34,20 @@ theorem loops_stop_after_error (f : Nat) (c : Expr) (inc : Option Expr) (b : Stm
     whileLoop P (f + 2) c b env repl σ = .ok (.nil, .none) σ ∧ forLoop P (f + 2) c inc b env repl σ = .ok (.nil, .none) σ := by
   have hc := (inert_terminates P f c b env repl σ h).1
   constructor
-  · rw [whileLoop]; simp only [hc]; simp [truthy, nilOk]
-  · rw [forLoop]; simp only [hc]; simp [truthy, nilOk]
+  · rw [whileLoop]; simp only [guardErr, ER.seq, Res.bind, hc]; simp [guardErr, ER.seq, Res.bind, truthy, nilOk]
+  · rw [forLoop]; simp only [guardErr, ER.seq, Res.bind, hc]; simp [guardErr, ER.seq, Res.bind, truthy, nilOk]
 
 /-- the rest of a block, a function body and the program are skipped after the error -/
 theorem block_stops_after_error (f : Nat) (s : Stmt) (ss : List Stmt) (env : Nat) (repl : Bool) (σ σ1 : Store) (sig : Signal)
     (hs : evalS P f s env repl σ = .ok (.nil, sig) σ1) (h1 : σ1.hadError = true) (hsig : sig = .none) :
     evalBlock P (f + 1) (s :: ss) env repl σ = .ok (.nil, .none) σ1 := by
   subst hsig
-  rw [evalBlock]; simp only [hs]; simp [h1, nilOk]
+  rw [evalBlock]; simp only [guardErr, ER.seq, Res.bind, hs]; simp [guardErr, ER.seq, Res.bind, h1, nilOk]
 
 theorem program_stops_after_error (f : Nat) (s : Stmt) (ss : List Stmt) (env : Nat) (repl : Bool) (σ σ1 : Store) (v : Val)
     (hs : evalS P f s env repl σ = .ok (v, .none) σ1) (h1 : σ1.hadError = true) :
     interpretLoop P (f + 1) (s :: ss) env repl σ = .ok () σ1 := by
-  rw [interpretLoop]; simp only [hs]; simp [h1]
+  rw [interpretLoop]; simp only [guardErr, ER.seq, Res.bind, hs]; simp [guardErr, ER.seq, Res.bind, h1]
 
 /-- no built-in is invoked once an argument (or anything before the call) has failed -/
 theorem no_invocation_after_failed_argument (f : Nat) (c : Expr) (args : List Expr) (line env : Nat) (repl : Bool)
@@ -56,16 +56,16 @@ theorem no_invocation_after_failed_argument (f : Nat) (c : Expr) (args : List Ex
     (hk : Expect.arity n = -1 ∨ (args.length : Int) = Expect.arity n)
     (ha : evalList P f args env repl σ1 = .ok (vs, .none) σ2) (h2 : σ2.hadError = true) :
     evalE P (f + 1) (.call c line args) env repl σ = .ok (.nil, .none) σ2 := by
-  rw [evalE]; simp only [h0, hc]
+  rw [evalE]; simp only [guardErr, ER.seq, Res.bind, h0, hc]
   have : ¬ (Expect.arity n ≠ -1 ∧ (args.length : Int) ≠ Expect.arity n) := by
     rcases hk with hk | hk <;> simp [hk]
-  simp [this, ha, h2, nilOk]
+  simp [arityOf, this, ha, h2, nilOk, Res.bind, guardErr]
 
 /-- printing is skipped when its operand failed -/
 theorem no_print_after_failed_operand (f : Nat) (e : Expr) (env : Nat) (repl : Bool) (σ σ1 : Store) (v : Val)
     (h0 : σ.hadError = false) (he : evalE P f e env repl σ = .ok (v, .none) σ1) (h1 : σ1.hadError = true) :
     evalS P (f + 1) (.print e) env repl σ = .ok (.nil, .none) σ1 := by
-  rw [evalS]; simp only [h0, he]; simp [h1, nilOk]
+  rw [evalS]; simp only [guardErr, ER.seq, Res.bind, h0, he]; simp [guardErr, ER.seq, Res.bind, h1, nilOk]
 
 end
 
